@@ -20,9 +20,24 @@ SDB_ASSUMPTIONS = COMMON_ASSUMPTIONS + [
 ]
 
 H = P + 'zzverif/hsdb.'
+T = P + 'zzverif/htx.'
+A = P + 'zzverif/hante.'
+C = P + 'zzverif/hcpc.'
 
 SDB_BOUNDS = ['StateDB harnesses: 2 accounts (20 symbolic address bytes each, distinct) unless stated, account kinds as listed per harness', 'amounts and balances in [0, 2^128), supply = sum of harness balances + symbolic rest in [0, 2^130)',
               'storage: slots {1,2} with symbolic one-byte values; code: two fixed byte strings', 'nonces < 2^62']
+
+TX_ASSUMPTIONS = SDB_ASSUMPTIONS + [
+    'EVM interpreter model: the fork\'s real EVM.Call/Create/StaticCall run; only (*EVMInterpreter).Run is replaced (hook overlay on core/vm/interpreter.go, same in engine and native replay) by a symbolic script acting through vm.StateDB; it never returns more gas than it was given.',
+    'Ethereum transaction model: RLP decoding returns the registered transaction object, signature recovery returns the registered signer, tx.Hash the registered hash; native replay signs a real transaction.',
+    'Receipt RLP keeps exactly the consensus fields; the bloom filter is recomputed with Keccak over concrete log addresses/topics.',
+    'runTx model: ante decorators run on a branch written iff all succeed; the message runs on a second branch written iff no error and no panic.',
+]
+
+TX_BOUNDS = ['one Ethereum transaction: legacy or dynamic-fee; destination scripted contract / plain account / creation (per harness); gas limit any uint64; value < 2^128; data 2 bytes',
+             'quick tier prices: gas price in {0, 3, 10^10}, (tip, cap) in {(0,0),(2,9),(2,6),(0,7)}, base fee in {0,5,7}; thorough tier adds tip, cap, gas price < 2^100 and base fee < 2^64 fully symbolic',
+             'sender balance < 2^200, other balances in [1, 2^128), sender sequence < 2^63',
+             'contract behaviour: script of 1 action in {none, log, sstore with symbolic refund counter < 2^62, transfer out, self-destruct}, symbolic gas use (any uint64, capped at the gas available), outcome {success, revert, error}']
 
 CHECKS = {
     'C01': {
@@ -67,15 +82,75 @@ CHECKS = {
         'assumptions': SDB_ASSUMPTIONS,
     },
     'C04': {
-        'pkgs': ['./zzverif/hsdb'],
+        'pkgs': ['./zzverif/hsdb', './zzverif/htx'],
         'harnesses': [
-            {'fn': P + 'zzverif/hsdb.H_C04_2_Ledger'},
+            {'fn': H + 'H_C04_2_Ledger'},
+            {'fn': T + 'H_C04_1_TxConservation', 'over': {'max-decisions': 1500, 'max-paths': 60000}, 'must_reach': ['committed-path', 'core-error-path', 'refund-path']},
+            {'fn': T + 'H_C04_1b_TxConservationAll', 'over': {'max-decisions': 1500, 'max-paths': 400000}, 'thorough_only': True},
+            {'fn': T + 'H_C04_1c_TxConservationSymbolicPrices', 'over': {'max-decisions': 1500, 'max-paths': 400000, 'timeout-ms': 60000}, 'thorough_only': True},
         ],
-        'level_text': 'Bounded model checking of the real StateDB balance mutators over a symbolic bank ledger: every path of AddBalance/SubBalance (through the real sdk.Coins / sdkmath code) is enumerated and the ledger identities are decided by z3 for all amounts below 2^255.',
-        'level_note': 'Trusted: gosym, solvers, store/codec/account/bank models (bank model mirrors SDK source; replayed natively against the real bank keeper).',
-        'bounds': ['amounts, balances, supply in [0, 2^255)', '1 symbolic address (20 symbolic bytes), 2 denominations', 'one mutator call'],
-        'outside': ['coins minted by other SDK modules', 'the EVM interpreter'],
-        'assumptions': SDB_ASSUMPTIONS,
+        'level_text': 'Bounded symbolic execution of one Ethereum transaction through the real EVM-lane code that moves coins (DLDeductFeeDecorator with the SDK fee deduction and the real EthereumTxFeeChecker, DLIncrementSequenceDecorator, ELSetupExecutionDecorator, the x/evm message server EthereumTx -> ApplyTransaction -> ApplyMessageWithConfig -> TransitionDb -> the fork\'s real EVM.Call/Create, the context-based StateDB and its commit) under the BaseApp branch discipline; only the bytecode interpreter loop is a symbolic script. z3 decides the ledger identities (supply never grows, fee collector gains exactly the fee paid, balance changes sum to minus the burns, EVM module account ends at zero) on every path, for every gas limit, gas use, refund, value and balance in the bounds.',
+        'level_note': 'Trusted: gosym, solvers, store/codec/account/bank/tx/receipt models; the interpreter contract (acts only through vm.StateDB, never returns more gas than given). Quick tier uses small concrete sets for gas prices and base fee (all products linear); the thorough tier adds fully symbolic prices, creation transactions and value-moving scripts.',
+        'bounds': TX_BOUNDS + ['H_C04_2: one StateDB balance mutator from an arbitrary ledger (amounts < 2^255)'],
+        'outside': ['coins minted by other SDK modules in the same block (mint, distribution)', 'the EVM bytecode interpreter (symbolic script of 1 action)', 'more than one transaction per block (cumulative effects are covered by C13 harnesses)'],
+        'assumptions': TX_ASSUMPTIONS,
+    },
+    'C05': {
+        'pkgs': ['./zzverif/htx'],
+        'harnesses': [
+            {'fn': T + 'H_C05_1_ChargeLaw', 'over': {'max-decisions': 1500, 'max-paths': 60000}, 'must_reach': ['committed', 'discarded', 'rejected', 'refund-capped-at-one-fifth']},
+            {'fn': T + 'H_C05_1b_ChargeLawAll', 'over': {'max-decisions': 1500, 'max-paths': 400000}, 'thorough_only': True},
+        ],
+        'level_text': 'Bounded symbolic execution of one Ethereum transaction through the real EVM-lane fee, nonce and execution code (as for C04): z3 decides on every path that the sender pays exactly gasUsed x effective price plus the value actually transferred (gasLimit x price when the execution is discarded, nothing when rejected at admission), that gas used equals an independent account of intrinsic gas + gas consumed - min(refund counter, consumed/5), lies within [.., gas limit], and that the SDK gas meter and the receipt report the same gas used.',
+        'level_note': 'Known finding C05-F12 (open): with a storage refund the receipt gas used can be below the intrinsic gas (go-ethereum accounting, required by C02). Cumulative gas over several transactions is checked under C13.',
+        'bounds': TX_BOUNDS,
+        'outside': ['the interpreter\'s own gas schedule (the script consumes a symbolic amount of gas)', 'multi-transaction blocks (C13)'],
+        'assumptions': TX_ASSUMPTIONS,
+    },
+    'C06': {
+        'pkgs': ['./zzverif/htx'],
+        'harnesses': [
+            {'fn': T + 'H_C06_2_ExactlyOneNonce', 'over': {'max-decisions': 1500, 'max-paths': 100000}, 'must_reach': ['committed', 'committed-create', 'committed-vm-error', 'discarded']},
+        ],
+        'level_text': 'Bounded symbolic execution of one Ethereum transaction through the real nonce machinery (DLIncrementSequenceDecorator in the ante branch, the restore in the EthereumTx message server, the re-increment in TransitionDb for calls and in the fork\'s EVM.create for creations, commit/discard by the runTx model): z3 decides that for every sender sequence in [0, 2^63) and every outcome (success, VM error, consensus error, panic) the sequence ends exactly one higher, and stays put when the transaction is rejected at admission.',
+        'level_note': 'Signature recovery, chain-id protection and the nonce-equality admission check (DLSigVerification / ValidateBasic decorators) are not yet encoded: only the exactly-one-increment half of C06 is decided here. ECDSA is an uninterpreted function in any case.',
+        'bounds': TX_BOUNDS,
+        'outside': ['signature / chain id / declared-sender checks of the ante handler', 'Cosmos-lane sequence handling (SDK)', 'replays across blocks (follow from the admission check, not encoded)'],
+        'assumptions': TX_ASSUMPTIONS,
+    },
+    'C07': {
+        'pkgs': ['./zzverif/hante'],
+        'harnesses': [
+            {'fn': A + 'H_C07_1_CosmosLaneScreening', 'over': {'max-paths': 100000}, 'must_reach': ['accepted', 'rejected']},
+        ],
+        'level_text': 'Bounded exhaustive symbolic execution of the real Cosmos-lane decorators (CLRejectEthereumMsgs, CLRejectAuthzMsgs with the default disabled list and depth cap, CLVestingMessagesAuthorization) over transaction shapes: a spine of up to 4 nesting levels, optional siblings (MsgSend, MsgExec{MsgSend}, top-level vesting message) before/after the spine element of each level, one special message of 6 kinds (x3 vesting kinds, x4 disabled urls) at the end of the spine; acceptance is compared with an independent policy predicate on every shape.',
+        'level_note': 'The dual-lane decorators in front (extension options, ValidateBasic, memo, timeout, fee and gas equality of a single Ethereum message) are not encoded yet; protobuf Any packing and sdk.MsgTypeURL are models (registry of cached values / table of registered names).',
+        'bounds': ['nesting depth of the special message 1..4 (cap is 3)', '<= 2 siblings per level, sibling kinds {MsgSend, MsgExec{MsgSend}, (level 1) MsgCreateVestingAccount to a proven address}', '18,941 shapes'],
+        'outside': ['the single-Ethereum-message acceptance conditions (signatures, payer, memo, timeout, extension options, fee equality)', 'messages routed outside the ante handler (gov, ICA)', 'wider / deeper trees'],
+        'assumptions': COMMON_ASSUMPTIONS + ['authz.MsgExec.GetMessages / Grant.GetAuthorization return the packed messages (registry model of protobuf Any cached values); sdk.MsgTypeURL is a table of the registered names of the message types used'],
+    },
+    'C10': {
+        'pkgs': ['./zzverif/hcpc'],
+        'harnesses': [
+            {'fn': C + 'H_C10_1_OneCall', 'over': {'max-paths': 200000}, 'must_reach': ['call1-success-path', 'call1-failure-path']},
+            {'fn': C + 'H_C10_2_TwoCalls', 'over': {'max-paths': 600000}, 'thorough_only': True},
+        ],
+        'level_text': 'Inductive step by bounded symbolic execution: from an arbitrary symbolic bank ledger and allowance table, one state-changing ERC-20 call (transfer, transferFrom, approve, burn, burnFrom; caller and address arguments over {3 accounts, zero address, cpc module account}; amount in [0, 2^256)) is run through the fork\'s real EVM.Call -> RunPrecompiledContract -> RunCustom -> the repo\'s wrapper and executors (precompiles wired by the real Keeper.NewEVM), and compared by z3 with a reference ERC-20 ledger: success iff the reference allows, exact amounts, exactly one matching log, allowance rule incl. the infinite allowance, nothing else touched, failure changes nothing; the views equal bank state, also under STATICCALL.',
+        'level_note': 'ABI encoding/decoding and the JSON of the typed metadata are inverse-pair models; bank is the model mirroring the SDK. Native replay uses the real ABI codec and real bank keeper.',
+        'bounds': ['4 holders (3 accounts + cpc module account) with symbolic balances < 2^128, supply = sum + rest', 'the allowance the call depends on and one bystander allowance: none / zero / finite symbolic / infinite', 'quick: 1 call; thorough: 2 calls'],
+        'outside': ['ABI byte-level decoding', 'x/bank internals', 'calls made from contract bytecode (the caller is an address; the precompile sees only caller.Address())'],
+        'assumptions': TX_ASSUMPTIONS,
+    },
+    'C16': {
+        'pkgs': ['./zzverif/hante'],
+        'harnesses': [
+            {'fn': A + 'H_C07_1_CosmosLaneScreening', 'over': {'max-paths': 100000}, 'must_reach': ['accepted', 'rejected']},
+        ],
+        'level_text': 'Bounded exhaustive symbolic execution of the real Cosmos-lane decorators over transaction shapes (see C07): a vesting-creation message of any of the three kinds survives the ante handler only at top level and only for an address with a stored ownership proof; nested in MsgExec at any explored depth/position, granted through MsgGrant, or beside a proven one but itself unproven, it is refused.',
+        'level_note': 'Only the admission half of C16 is decided; the proof-submission message server (signature check, fixed fee burn, finality) is not encoded yet.',
+        'bounds': ['as C07'],
+        'outside': ['vauth SubmitProofExternalOwnedAccount (signature verification, fee burn, no overwrite)', 'ECDSA / Keccak'],
+        'assumptions': COMMON_ASSUMPTIONS,
     },
     'C09': {
         'level_text': 'Bounded model checking of the real CalculateBaseFee / EndBlock / misc.CalcBaseFee code: every feasible path is enumerated and each assertion (no panic, EIP-1559 value, floors) is decided by z3 over the full integer ranges stated in the bounds; this is the right level because the property is pure integer arithmetic whose failures sit at rare boundary values (zero gas target, >int64 fees).',
